@@ -16,13 +16,18 @@ def _mk(blt, opts, lp):
         return Election(ElectionProfile(data=blt), dict(opts))
 
 
+LAST_LOCS = []      # code location (file, line) of every line event of the last count_events run
+
+
 def count_events(blt, opts, lp=None):
     n = [0]
+    del LAST_LOCS[:]
 
     def tr(frame, event, arg):
         if frame.f_code.co_filename.startswith(PKG):
             if event == 'line':
                 n[0] += 1
+                LAST_LOCS.append((frame.f_code.co_filename, frame.f_lineno))
             return tr
         return None
     E = _mk(blt, opts, lp)
@@ -56,6 +61,8 @@ def interrupted(blt, opts, k, lp=None):
         intr = True
     finally:
         sys.settrace(None)
+    if not intr and n[0] >= k:
+        intr = 'lost'           # the interrupt was delivered at event k, yet count() ran on to its end
     return E, intr
 
 
@@ -64,7 +71,7 @@ def crash_record(blt, opts, k, full, fulljson, lp=None):
     E, intr = interrupted(blt, opts, k, lp)
     if not intr:
         return None
-    X = dict(rule=opts['rule'], k=k, nfull=len(full), filled=bool(E.erecord.filled))
+    X = dict(rule=opts['rule'], k=k, nfull=len(full), filled=bool(E.erecord.filled), lost=(intr == 'lost'))
     outs = {}
     for f in ('report', 'dump', 'json'):
         try:
@@ -151,7 +158,7 @@ def main_record(path, blt, opts, k, full, fulljson, with_report=True):
     out, exc, seen = main_interrupted(path, opts, k, with_report)
     if seen < k:
         return None                      # the count finished before the k-th event
-    X = dict(rule=opts['rule'], k=k, nfull=len(full), filled=True, report_ok=out is not None, dump_ok=out is not None, json_ok=out is not None,
+    X = dict(rule=opts['rule'], k=k, nfull=len(full), filled=True, lost=False, report_ok=out is not None, dump_ok=out is not None, json_ok=out is not None,
              report_exc=exc, dump_exc='', json_exc='', marker_last=False, marker_count=0, nacts=0, prefix_ok=False, banner=False,
              json_prefix_ok=False, json_actions=0, dump_rows=0)
     if out is None:
@@ -180,3 +187,18 @@ def main_record(path, blt, opts, k, full, fulljson, with_report=True):
     X['json_actions'] = len(ja)
     X['json_prefix_ok'] = ja[:-1] == fulljson[:len(ja) - 1]
     return X
+
+
+def per_line_events(maxper=2):
+    "for every distinct executed line of the last full_run: the indices (1-based) of its first and last (and a middle) occurrence"
+    occ = {}
+    for i, loc in enumerate(LAST_LOCS, 1):
+        occ.setdefault(loc, []).append(i)
+    ks = set()
+    for loc, L in occ.items():
+        ks.add(L[0])
+        if maxper >= 2:
+            ks.add(L[-1])
+        if maxper >= 3:
+            ks.add(L[len(L) // 2])
+    return ks, len(occ)
